@@ -200,3 +200,89 @@ Proof.
   cbn. split; [|reflexivity]. induction body as [|x r IH]; cbn [flat_map]; [reflexivity|].
   now rewrite <- scan_visits_covered_stmt, IH.
 Qed.
+
+(** ** locals: every entry the collector keeps is a binding the function really contains *)
+Lemma bind_in names line : forall acc kv,
+  In kv (bind names line acc) -> In kv acc \/ In kv (map (fun n => (n, line)) names).
+Proof.
+  unfold bind. induction names as [|n names IH]; intros acc kv H; [now left|]. cbn [fold_left] in H.
+  apply IH in H as [H|H]; [|right; now right].
+  destruct (existsb _ acc); [now left|]. apply in_app_iff in H as [H|[<-|[]]]; [now left|]. right. now left.
+Qed.
+
+Definition block_fold (b : list stmt) (acc : list (string * N)) := fold_left (fun a s => locals_stmt bind true s a) b acc.
+
+Ltac blk_sound locals_sound b :=
+  let go := fresh "go" in
+  revert b; fix go 1; intros [|s r] acc kv H; [now left|];
+  unfold block_fold in *; cbn [fold_left flat_map] in *;
+  apply go in H as [H|H]; [apply locals_sound in H as [H|H]; [now left|right; apply in_or_app; now left]
+                          |right; apply in_or_app; now right].
+
+Fixpoint locals_sound (st : stmt) : forall acc kv,
+  In kv (locals_stmt bind true st acc) -> In kv acc \/ In kv (bindings st).
+Proof.
+  destruct st; try (intros acc kv H; cbn [locals_stmt bindings] in *; now left).
+  - intros acc kv H. cbn [locals_stmt bindings] in *. apply bind_in in H. exact H.
+  - intros acc kv H. cbn [locals_stmt bindings] in *. apply bind_in in H. exact H.
+  - intros acc kv H. cbn [locals_stmt bindings] in *. apply bind_in in H. exact H.
+  - (* if *)
+    assert (Hb : forall acc kv, In kv (block_fold body acc) -> In kv acc \/ In kv (flat_map bindings body)) by (blk_sound locals_sound body).
+    assert (Ho : forall acc kv, In kv (block_fold orelse acc) -> In kv acc \/ In kv (flat_map bindings orelse)) by (blk_sound locals_sound orelse).
+    intros acc kv H. cbn [locals_stmt bindings] in *.
+    apply Ho in H as [H|H]; [|right; apply in_or_app; now right].
+    apply Hb in H as [H|H]; [now left|right; apply in_or_app; now left].
+  - (* while *)
+    assert (Hb : forall acc kv, In kv (block_fold body acc) -> In kv acc \/ In kv (flat_map bindings body)) by (blk_sound locals_sound body).
+    assert (Ho : forall acc kv, In kv (block_fold orelse acc) -> In kv acc \/ In kv (flat_map bindings orelse)) by (blk_sound locals_sound orelse).
+    intros acc kv H. cbn [locals_stmt bindings] in *.
+    apply Ho in H as [H|H]; [|right; apply in_or_app; now right].
+    apply Hb in H as [H|H]; [now left|right; apply in_or_app; now left].
+  - (* for *)
+    assert (Hb : forall acc kv, In kv (block_fold body acc) -> In kv acc \/ In kv (flat_map bindings body)) by (blk_sound locals_sound body).
+    assert (Ho : forall acc kv, In kv (block_fold orelse acc) -> In kv acc \/ In kv (flat_map bindings orelse)) by (blk_sound locals_sound orelse).
+    intros acc kv H. cbn [locals_stmt bindings] in *.
+    apply Ho in H as [H|H]; [|right; apply in_or_app; right; apply in_or_app; now right].
+    apply Hb in H as [H|H]; [|right; apply in_or_app; right; apply in_or_app; now left].
+    apply bind_in in H as [H|H]; [now left|right; apply in_or_app; now left].
+  - (* with *)
+    assert (Hb : forall acc kv, In kv (block_fold body acc) -> In kv acc \/ In kv (flat_map bindings body)) by (blk_sound locals_sound body).
+    intros acc kv H. cbn [locals_stmt bindings] in *.
+    apply Hb in H as [H|H]; [|right; apply in_or_app; now right].
+    revert acc H. induction items as [|[c v] items IHi]; intros acc H; cbn [fold_left flat_map snd] in *; [now left|].
+    apply IHi in H as [H|H]; [|right; apply in_app_iff in H as [H|H]; apply in_or_app; [left; apply in_or_app; now right|now right]].
+    destruct v as [v|]; [|now left]. apply bind_in in H as [H|H]; [now left|]. right. apply in_or_app. left. apply in_or_app. now left.
+  - (* try *)
+    assert (Hb : forall acc kv, In kv (block_fold body acc) -> In kv acc \/ In kv (flat_map bindings body)) by (blk_sound locals_sound body).
+    assert (Ho : forall acc kv, In kv (block_fold orelse acc) -> In kv acc \/ In kv (flat_map bindings orelse)) by (blk_sound locals_sound orelse).
+    assert (Hf : forall acc kv, In kv (block_fold finalbody acc) -> In kv acc \/ In kv (flat_map bindings finalbody)) by (blk_sound locals_sound finalbody).
+    assert (Hh : forall a kv, In kv (fold_left (fun a h => block_fold h a) handlers a) ->
+                            In kv a \/ In kv (flat_map (fun h => flat_map bindings h) handlers)).
+    { revert handlers. fix goh 1. intros [|h hs]; [intros a kv Ha; now left|].
+      assert (Hh1 : forall acc kv, In kv (block_fold h acc) -> In kv acc \/ In kv (flat_map bindings h)) by (blk_sound locals_sound h).
+      intros a kv Ha. cbn [fold_left flat_map] in *.
+      apply goh in Ha as [Ha|Ha]; [|right; apply in_or_app; now right].
+      apply Hh1 in Ha as [Ha|Ha]; [now left|right; apply in_or_app; now left]. }
+    intros acc kv H. cbn [locals_stmt bindings] in *.
+    apply Hf in H as [H|H]; [|right; apply in_or_app; right; apply in_or_app; right; apply in_or_app; now right].
+    apply Ho in H as [H|H]; [|right; apply in_or_app; right; apply in_or_app; right; apply in_or_app; now left].
+    apply Hh in H as [H|H]; [|right; apply in_or_app; right; apply in_or_app; now left].
+    apply Hb in H as [H|H]; [now left|right; apply in_or_app; now left].
+Qed.
+
+(** a local the scan treats as bound on an earlier line IS bound on an earlier line *)
+Theorem local_suppression_justified body n l line :
+  lookup_str n (collect_locals body) = Some l -> l < line -> bound_earlier body n line = true.
+Proof.
+  intros H Hl. unfold lookup_str in H.
+  destruct (List.find (fun kv => String.eqb (fst kv) n) (collect_locals body)) as [[k v]|] eqn:E; [|discriminate].
+  injection H as ->. apply find_some in E as [Hin Hk]. cbn [fst] in Hk. apply String.eqb_eq in Hk. subst k.
+  unfold bound_earlier. apply existsb_exists. exists (n, l). split.
+  - unfold collect_locals in Hin. fold (block_fold body []) in Hin.
+    assert (G : forall b acc kv, In kv (block_fold b acc) -> In kv acc \/ In kv (flat_map bindings b)).
+    { induction b as [|s b IHb]; intros acc kv H; [now left|]. unfold block_fold in *. cbn [fold_left flat_map] in *.
+      apply IHb in H as [H|H]; [|right; apply in_or_app; now right].
+      apply locals_sound in H as [H|H]; [now left|right; apply in_or_app; now left]. }
+    apply G in Hin as [[]|Hin]. exact Hin.
+  - cbn [fst snd]. rewrite String.eqb_refl. now apply N.ltb_lt.
+Qed.
